@@ -125,6 +125,7 @@ pdgstrf_bmod2D(
 	if ( kfnz == EMPTY ) continue;	/* Skip any zero segment */
 	    
 	segsze = krep - kfnz + 1;
+	SLU_MT_VERIF_EVENT(SLU_EV_UPD_STEP, pnum, jj, kfnz, krep, 0);
 	luptr = xlusup[fsupc];
 
         flopcnt = segsze * (segsze - 1) + 2 * nrow * segsze;
